@@ -498,6 +498,41 @@ static void userbuf_case(vf::Rng& r) {
   free(block);
 }
 
+// a pool with the adaptive chunk policy that starts small (1..32 KiB) and meets texts of 100 bytes .. 300 KiB in varying
+// order: chunk sizes grow with the requests, and a chunk must never be smaller than the request that opened it
+static vf::Counter c_adaptive_grow("adaptive-pool:small-start-meets-large-text");
+static void adaptive_growth_case(vf::Rng& r) {
+  size_t start = (size_t)1 << r.range(10, 15);
+  su::AdaptivePool alloc(start);
+  int n = (int)r.range(1, 4);
+  for (int k = 0; k < n; k++) {
+    size_t want = r.below(3) == 0 ? r.range(100, 2000) : r.below(2) ? r.range(20000, 70000) : r.range(60000, 300000);
+    std::string t;
+    switch (r.below(3)) {
+      case 0: t = "[\"" + std::string(want, 'x') + "\"]"; break;
+      case 1: { t = "["; while (t.size() < want) t += std::to_string(r.below(100000)) + ","; t += "0]"; break; }
+      default: { t = "{"; size_t i = 0; while (t.size() < want) t += "\"k" + std::to_string(i++) + "\":\"" + std::string(r.below(200), 'v') + "\","; t += "\"z\":null}"; break; }
+    }
+    if (r.below(5) == 0) t.resize(r.below(t.size()));  // truncated: error path with a large string buffer
+    c_adaptive_grow.add();
+    vf::eval();
+    vf::witness("adaptive pool starting at " + std::to_string(start) + " bytes, text of " + std::to_string(t.size()) + " bytes: " + t.substr(0, 60));
+    vf::distinct(vf::hash_combine(vf::hash_str(t), start));
+    ExactBuf b(t);
+    su::AdaptiveDoc d(&alloc);
+    vf::note("Parse(adaptive pool, small start)");
+    d.Parse(b.p, b.n);
+    jm::RefResult ref = jm::ref_parse(t);
+    if (!d.HasParseError() != ref.ok) vf::violation("adaptive-accept-mismatch", "adaptive pool: text of " + std::to_string(t.size()) + " bytes");
+    if (!d.HasParseError()) {
+      JVal got;
+      std::string why;
+      if (!su::read_node(d, got, why) || !jm::equal(got, ref.v)) vf::violation("adaptive-value-mismatch", "adaptive pool: " + jm::first_diff(got, ref.v));
+    }
+    if (r.below(3) == 0) alloc.Clear();
+  }
+}
+
 static void track_history(vf::Rng& r) {
   su::ledger_reset();
   history<su::TrackDoc>(r, "track");
@@ -737,6 +772,21 @@ int main(int argc, char** argv) {
                    default: one_input("{\"k\":" + t + "}"); break;
                  }
                }});
+  // a run of 0..260 blanks at the end of a truncated text and inside a complete one, at pads 0..3: the block-wise
+  // whitespace scan has to find the end of the run (or of the input) wherever it falls in a 64-byte block
+  S.push_back({"blank_runs_of_every_length", 261, 261, [](uint64_t i, vf::Rng& r) {
+                 std::string ws(i, ' ');
+                 if (i && r.coin()) for (auto& ch : ws) ch = " \t\n\r"[r.below(4)];
+                 for (size_t pad = 0; pad < 4; pad++) {
+                   std::string p(pad, ' ');
+                   one_input(p + "[1," + ws);
+                   one_input(p + "[1," + ws + "2]");
+                   one_input(p + "{\"a\":" + ws);
+                   one_input(p + "{\"a\":" + ws + "\"v\"}");
+                   one_input(p + "[" + ws + "]" + ws);
+                   one_input(p + "[[]" + ws);
+                 }
+               }, false});
   // texts with the maximal number of values per byte (one-character scalars, no blanks, empty keys): the parser's node stack
   // is sized from the text length, so these are the valid texts that fill it to the brim; every length 2..400
   S.push_back({"densest_valid_texts", 400, 400, [](uint64_t i, vf::Rng& r) {
@@ -971,6 +1021,7 @@ int main(int argc, char** argv) {
     S.push_back({"reuse_histories_track", 1500, 100000, [](uint64_t, vf::Rng& r) { track_history(r); }});
     S.push_back({"user_buffer_pool", 3000, 200000, [](uint64_t, vf::Rng& r) { userbuf_case(r); }});
     S.push_back({"very_deep_documents", 18, 18, deep_case, false});
+    S.push_back({"adaptive_pool_growth", 400, 20000, [](uint64_t, vf::Rng& r) { adaptive_growth_case(r); }});
   }
   // bundled test data (thorough): whole files and mutations of them
   if (vf::args().thorough || true) {
